@@ -48,7 +48,7 @@ class C03(Check):
 
     def strata(self, tier):
         s = [('S-main', 6), ('S-heun', 3), ('S-adaptive', 3), ('S-fault', 1), ('S-nonmult', 1), ('S-onerow', 1),
-             ('S-torch', 1), ('S-jax', 1)]
+             ('S-torch', 1), ('S-jax', 1), ('S-complex', 1)]
         if tier == 'thorough':
             s.append(('S-fortran', 1))      # f2py build per run (~6-10 s): thorough tier only
         return s
@@ -66,7 +66,9 @@ class C03(Check):
     # ------------------------------------------------------------------------------------------------
     def generate(self, rng, stratum, tier):
         spec = models.gen_net(rng, hier=rng.random() < 0.25)
-        if rng.random() < 0.25:
+        if stratum == 'S-complex':
+            spec = models.gen_net(rng, libs=('cz',), hier=rng.random() < 0.2)     # complex-valued states
+        elif rng.random() < 0.25:
             models.add_edge_templates(rng, spec, p=0.6)
         dt = rng.choice(DTS)
         m = rng.randint(1, 7)
@@ -122,6 +124,10 @@ class C03(Check):
                'outputs': rng.choice(['explicit', 'wild']),
                'input': gen_input(rng, spec, steps) if rng.random() < 0.4 else None,
                'fault_at': None}
+        if stratum == 'S-complex':
+            cfg.update({'precision': rng.choice(['complex128', 'complex128', 'complex64']), 'input': None, 'rowlevel': True,
+                        'solver': rng.choice(['euler', 'heun', 'heun']), 'solver_kw': {}, 'outputs': 'explicit',
+                        'fault_at': None})
         if stratum in ('S-jax', 'S-fortran'):
             cfg['outputs'] = 'explicit'
         if solver in ('scipy', 'diffrax'):
@@ -175,7 +181,7 @@ class C03(Check):
                 for v in models.LIB[o['lib']]['state']:
                     outputs[f"w_{o['name']}_{v}"] = f"{depth}/{o['name']}/{v}"
         c = models.build(spec)
-        if cfg['backend'] in ('jax', 'fortran'):
+        if cfg['backend'] in ('jax', 'fortran') or cfg.get('rowlevel'):
             return self._exec_jax(trace, c, net, names, outputs)
         rec = Recorder(fault_at=cfg['fault_at'])
         kw = dict(cfg['solver_kw'])
@@ -448,7 +454,8 @@ class C03(Check):
         except Exception as e:
             res['discard'] = f'model/solver refused on {cfg["backend"]}: {type(e).__name__}: {str(e)[:60]}'
             return res
-        vals = np.asarray(R.values, dtype=float)
+        cplx = 'complex' in cfg['precision']
+        vals = np.asarray(R.values, dtype=complex if cplx else float)
         if not np.all(np.isfinite(vals)):
             res['discard'] = 'non-finite trajectory'
             return res
@@ -468,7 +475,7 @@ class C03(Check):
             V('L-cutoff' if cutoff > 0 else 'L-rows', 'silent', 'row-set',
               f'returned rows n={len(js)} {js[:4]}..; expected n={len(must)} of round(T/dts)={rows_all}, cutoff={cutoff}')
             return res
-        col = {k: np.asarray(R[k].values, dtype=float) for k in outputs}
+        col = {k: np.asarray(R[k].values, dtype=complex if cplx else float) for k in outputs}
         name_of = {k: outputs[k] for k in outputs}
         if cfg['solver'] in ('euler', 'heun'):
             def extra_at(k, traj):
@@ -488,7 +495,7 @@ class C03(Check):
                     y = {n: y[n] + dt / 2 * (r1[n] + r2[n]) for n in y}
                     alt.append(dict(y))
                 trajs.append(alt)
-            tol = 1e-9 if cfg['precision'] == 'float64' else 5e-4
+            tol = 1e-9 if cfg['precision'] in ('float64', 'complex128') else 5e-4
             fails = []
             for traj in trajs:
                 bad = None
